@@ -15,7 +15,11 @@ A = Term.atom
 
 def _infeasible(pr):
     """trivially contradictory path: `X is not X` taken, `X is X` refused (constant folding only)"""
+    from ..core.symexec import _trivial
     for c, t, node in pr.conds:
+        tv = _trivial(c)
+        if tv is not None and tv != t:
+            return True  # a condition with a constant truth value taken the other way
         if c.startswith("IsNot(") and t:
             a, b = _args(c)
             if a == b:
@@ -653,6 +657,77 @@ def rule_I1(ctx):
             ok = all(k in ("ExprValidator", "Computed", "Pointer", "Lazy") for k in kinds)
             det = "" if ok else f"sequentially read field kinds {kinds}: a failed element would shift the following ones"
         ctx.ob("I1", fn, f"{fac}: records are addressed absolutely (Computed/Pointer/Lazy only), so element i cannot shift element j", ok, det, inst=f"footprint:{fac}")
+    # every tolerant list of the package: either its elements leave no sequential footprint (addressed absolutely, checked above), or
+    # the list re-aligns the stream after a failed element (element start + element size) - a failure part-way through a record must not
+    # shift the records behind it
+    realigns = _safelist_realigns(ctx, sl)
+    zero_fp = {"VolumeEntryConstruct", "PerformanceEntryConstruct", "PatchEntryConstruct", "PartialEntryConstruct", "SampleEntryConstruct"}
+    n_sites = 0
+    for m_, q_, fn_ in ctx.prog.all_functions():
+        for c_ in own_nodes(fn_):
+            if not (isinstance(c_, ast.Call) and isinstance(c_.func, ast.Name) and c_.func.id == "SafeListConstruct" and len(c_.args) >= 2):
+                continue
+            n_sites += 1
+            sub_ = c_.args[1]
+            facs = {x_.func.id for x_ in ast.walk(sub_) if isinstance(x_, ast.Call) and isinstance(x_.func, ast.Name)}
+            size_ = None
+            if facs & zero_fp:
+                size_ = 0
+            else:
+                try:
+                    from ..core.layout import Env as _Env
+                    lay_ = L.eval_con(sub_, _Env(m_))
+                    lay_ = lay_[-1] if isinstance(lay_, tuple) else lay_
+                    size_ = lay_.size
+                except Exception:
+                    size_ = None
+            ok = size_ == 0 or (isinstance(size_, int) and size_ > 0 and realigns)
+            det = "" if ok else (f"the elements `{norm(sub_)[:50]}` are read one after the other ({size_} bytes each) and a failed element leaves the stream where the failure "
+                                 "happened: every record behind it is read misaligned and dropped or garbled" if isinstance(size_, int) else f"footprint of `{norm(sub_)[:50]}` unknown")
+            ctx.ob("I1", c_, f"tolerant list in {q_}: a failed element cannot shift the ones behind it", ok, det, inst=f"safelist-site:{q_}:{norm(sub_)[:40]}")
+    if n_sites < 6:
+        raise AnalysisError("I1", "-", f"only {n_sites} SafeListConstruct sites found (confirmed: 7)")
+
+
+def _safelist_realigns(ctx, sl):
+    """does SafeListConstruct._parse put the stream at (element start + element size) on every path through its element handler?"""
+    loops = [l_ for l_ in own_nodes(sl) if isinstance(l_, ast.For)]
+    if len(loops) != 1:
+        return False
+    loop = loops[0]
+    cfg = ctx.cfg(sl, "I1")
+    lp = cfg.loop_of(loop)
+    pc = [x for x in own_nodes(sl) if isinstance(x, ast.Call) and norm(x.func) == "self.subcon._parsereport"]
+    if len(pc) != 1:
+        return False
+    stream = sl.args.args[1].arg
+    n_h = 0
+    for kind, path, edge in cfg.iteration_paths(lp, skip_labels=()):
+        pr = _walk(ctx, sl, cfg, path)
+        if _infeasible(pr) or not any(s_.kind == "except" for s_ in pr.steps):
+            continue
+        if not any(c_ is pc[0] for c_, e_, st_ in calls_on(pr)):
+            continue
+        n_h += 1
+        # element start: stream.tell() taken in this iteration before the parse; size: the element's own static size, > 0 on this path
+        seeks = [(c_, e_) for c_, e_, st_ in calls_on(pr) if norm(c_.func) == f"{stream}.seek" and len(c_.args) == 2 and norm(c_.args[1]) in ("SEEK_SET", "0", "io.SEEK_SET")]
+        facts = dict((c_.replace("~", ""), t_) for c_, t_, _n in pr.conds)
+        size_known = [k_ for k_, t_ in facts.items() if t_ and ("self.subcon._sizeof(context,path) > 0" in k_ or "self.subcon.sizeof() > 0" in k_ or "(self.subcon)._sizeof(context,path) > 0" in k_)]
+        size_zero = [k_ for k_, t_ in facts.items() if (not t_) and ("_sizeof(context,path) > 0" in k_ or "sizeof() > 0" in k_ or k_ == "0 > 0")]
+        if size_zero and not seeks:
+            continue  # an element without a static size is not stepped over (such elements are addressed absolutely)
+        if len(seeks) != 1:
+            return False
+        tgt = evaluator(ctx, sl, seeks[0][1]).ev(seeks[0][0].args[0]).key().replace("~", "")
+        if tgt not in (f"{stream}.tell() + self.subcon._sizeof(context,path)", f"self.subcon._sizeof(context,path) + {stream}.tell()",
+                       f"{stream}.tell() + self.subcon.sizeof()", f"self.subcon.sizeof() + {stream}.tell()"):
+            return False
+        # the remembered position is taken before the parse, inside the iteration
+        tells = [i_ for i_, s_ in enumerate(pr.steps) if s_.kind == "stmt" and isinstance(s_.ast, ast.Assign) and norm(s_.ast.value) == f"{stream}.tell()"]
+        parse_i = [i_ for i_, s_ in enumerate(pr.steps) if s_.kind == "stmt" and any(x_ is pc[0] for x_ in ast.walk(s_.ast))]
+        if not tells or not parse_i or tells[-1] > parse_i[0]:
+            return False
+    return n_h >= 1
 
 
 I4_NOT_REQUIRED = {
